@@ -12,6 +12,7 @@ The main concerns are:
 from __future__ import annotations
 
 import re
+from collections.abc import Callable
 
 from flowmark.linewrapping.atomic_patterns import (
     PAIRED_HTML_COMMENT,
@@ -276,6 +277,7 @@ def _is_unindented_tag_line(line: str) -> bool:
 
 def add_tag_newline_handling(
     base_wrapper: LineWrapper,
+    escape_first_word: Callable[[str], str] | None = None,
 ) -> LineWrapper:
     """
     Augments a LineWrapper to preserve newlines around Jinja/Markdoc tags
@@ -378,6 +380,14 @@ def add_tag_newline_handling(
         for i, segment in enumerate(segments):
             is_first = i == 0
             cur_initial_indent = initial_indent if is_first else subsequent_indent
+            if (
+                escape_first_word
+                and not is_first
+                and not line_is_block_content(segment.split("\n")[0])
+            ):
+                # The segment starts a line: a first word like `===` needs escaping there
+                # (lines kept as block content, like list items, are left alone).
+                segment = escape_first_word(segment)
             wrapped = base_wrapper(segment, cur_initial_indent, subsequent_indent)
             wrapped_segments.append(wrapped)
 
